@@ -79,6 +79,13 @@ func run(scratch string) int {
 			return 2
 		}
 		return checks.Probe(tb, os.Args[2:])
+	case "altcmp":
+		tb, err := plugin.Build(scratch)
+		if err != nil {
+			fmt.Println("HARNESS-ERROR", err)
+			return 2
+		}
+		return checks.AltCmp(tb, os.Args[2:])
 	case "smoke":
 		tb, err := plugin.Build(scratch)
 		if err != nil {
